@@ -12,6 +12,7 @@ COMMON_KANI = [
     'Kani builds with panic=abort and debug assertions on, on its own pinned nightly toolchain and std',
     'parametricity in T: the crate cannot inspect T, so pairwise-distinct ledger tokens (and u8 for byte impls) are the most general contents',
     'results of the Kani leg hold per instantiated capacity N (listed) and are bounded in N',
+    'beyond the Kani capacities the same harness-encoded contracts are only ENUMERATED natively on the real code at N = 6 (all) and 7, 8 (single-element operations and views): a bounded stand-in, exhaustive over layouts and small argument classes where the evidence says `exhausted`, never counted as proved',
 ]
 
 
